@@ -6,6 +6,23 @@ props = [json.loads(l) for l in open(os.path.join(V, 'properties.jsonl'))]
 
 # id -> (technique, level text, level note, design ref)
 CLAIMED = {
+ 'C02': ("property-based generation of modules x passes x well-formed API edit scripts (proptest), validity oracle (wasmparser::Validator) + panic capture",
+         "Accepted modules are parsed, edited through the public builder/edit API by generated well-formed edit scripts, optionally GC'd before and/or after the edits, and emitted under the name/producers switch combinations; any unwind and any output the reference validator rejects under walrus's feature set is a violation. Exploration over sampled modules and scripts.",
+         "Edits are well-formed by construction (back-links maintained as documented); DWARF generation is exercised under C10.",
+         "DESIGN.md §4 C02"),
+ 'C08': ("metamorphic byte-equality relations over generated modules (proptest): repeat emit, fresh parse, fresh process, extra round trip",
+         "For each module: three emits on one Module value, emits from two fresh parses, an emit in a fresh process (sampled), and emit(parse(output)) must all be byte-identical; default config and synthetic-name config. Exploration over sampled modules.",
+         "Hash-seed / ASLR nondeterminism is only sampled through the fresh-process comparison.",
+         "DESIGN.md §4 C08"),
+ 'C12': ("property-based generation of custom-section placements (proptest), list-equality oracle",
+         "Generated modules carry custom sections at arbitrary boundaries with adversarial names; the ordered list of uninterpreted (name,payload) pairs must be identical in the input and in the outputs of emit, GC+emit, second and third emit.",
+         "A trivial section walker (no wasmparser) extracts custom sections.",
+         "DESIGN.md §4 C12"),
+ 'C20': ("property-based generation across feature profiles (proptest), validator-under-reduced-feature-sets oracle",
+         "For each module and each candidate feature set S under which the input validates (greedy minimal set, MVP, generating set, full set minus one proposal, derived subsets) the output must validate under S as well.",
+         "wasmparser's feature gating defines which proposal a construct needs.",
+         "DESIGN.md §4 C20"),
+
  'C03': ("exhaustive operator enumeration + property-based generation, differential decode oracle (proptest)",
          "Every operator wasmparser knows is enumerated with boundary immediates (exhaustive over that finite table) and round-tripped inside a rich host module; in addition thousands of generated full-profile modules, the repository fixtures and the real corpus are round-tripped. Input and output are decoded independently and compared operator by operator under a verified renumbering bijection. Exploration, not proof: absence is shown only over the enumerated table and the sampled modules.",
          "Trusts wasmparser's binary reader and wasm-encoder's re-encoder for building inputs; the harness's canonicalisation (nop / dead-code removal, else insertion) re-states only what the property allows.",
